@@ -3,6 +3,10 @@
   pre/post handlers, rerun-requesting nodes, nested graphs that interrupt inside, tag nodes with an
   input key / output key (`WithInputKey` / `WithOutputKey`, same semantics as Oracle/C04.lean).
   JSON case → `IRunner FlatMap St Payload`; rendering of the call history.
+  Natively streaming nodes (`emit`: StreamableLambda / TransformableLambda producing one chunk or a
+  stream without chunks; `collect`: CollectableLambda) and stream branch conditions: a call runs the
+  graph in value mode or in stream mode (`sm`), by its calling paradigm; the value universe has the one
+  extra value `emptyV` = the stream without chunks (Model/C05Streams.lean).
   Interpreter glue only (the theorems quantify over arbitrary runners, handlers and bodies).
   The Go side of the same language is harness/gcase5.
 -/
@@ -10,11 +14,13 @@ import EinoV.Basic.JsonUtil
 import EinoV.Model.FlatMap
 import EinoV.Model.GraphBuild
 import EinoV.Model.C05
+import EinoV.Model.C05Streams
 import EinoV.Expected.C05
 import EinoV.Expected.C06
 
 namespace EinoV.Oracle.C05GraphCase
 open Lean EinoV EinoV.Engine EinoV.Interrupt
+open EinoV.Interrupt.Streams (emptyV isE mergeE histLoop)
 
 abbrev St := FlatMap
 
@@ -25,7 +31,9 @@ inductive Payload where
 def Payload.cp : Payload → Checkpoint FlatMap St Payload | .mk c _ => c
 def Payload.info : Payload → Info St Payload | .mk _ i => i
 
-def flatOps : ValOps FlatMap := { merge := FlatMap.merge, zero := [] }
+/-- `mergeE`: `FlatMap.merge` with the stream without chunks (`emptyV`) dropped from a fan-in; on
+    value lists without `emptyV` it is `FlatMap.merge` (Proofs/C05Streams.lean `mergeE_of_no_empty`) -/
+def flatOps : ValOps FlatMap := { merge := mergeE, zero := [] }
 def defaultStepSlack : Nat := 10
 
 def tagBody (key : Key) (inp : FlatMap) : FlatMap := [(key, hex32 (fnv32 (FlatMap.render inp ++ "#" ++ key)))]
@@ -97,7 +105,7 @@ structure GraphI where
    levels are scheduled independently, so that the failure alternatives of `handle` cover e.g.
    "outer level in submission order, nested graph reversed". -/
 mutual
-partial def parseNode (theCfg : Cfg) (lv : Nat → ISched FlatMap St Payload) (d : Nat) (plain : Bool) (n : Json) : JE (Key × INode FlatMap St Payload) := do
+partial def parseNode (theCfg : Cfg) (lv : Nat → ISched FlatMap St Payload) (d : Nat) (plain : Bool) (sm : Bool) (n : Json) : JE (Key × INode FlatMap St Payload) := do
   let key ← J.str n "key"
   let b ← J.field n "body"
   let pre := if J.boolD n "pre" false then some (preH key) else none
@@ -112,7 +120,9 @@ partial def parseNode (theCfg : Cfg) (lv : Nat → ISched FlatMap St Payload) (d
       let ik := inKeyOf n
       let okey := match J.strD n "outKey" "" with | "" => key | k => k
       pure (fun (v : FlatMap) (st : St) (_ : Option Payload) =>
-        match keyedInput ik v with
+        -- (an invokable lambda handed a stream concatenates it first: no chunk, no value — the
+        -- framework's error before the lambda runs, the class of the missing input key)
+        match (if isE v then none else keyedInput ik v) with
         | none => ({ res := .fail missingKeyErr st } : BodyOut FlatMap St Payload)
         | some v' =>
           let att := stNum st ("a:" ++ key)
@@ -121,9 +131,24 @@ partial def parseNode (theCfg : Cfg) (lv : Nat → ISched FlatMap St Payload) (d
     | "pass" => pure (fun v st _ => ({ res := .done v st } : BodyOut FlatMap St Payload))
     | "fail" => do
       let id ← J.nat b "id"
-      pure (fun _ st _ => ({ res := .fail { cls := .user id } st } : BodyOut FlatMap St Payload))
+      pure (fun v st _ => ({ res := .fail (if isE v then missingKeyErr else { cls := .user id }) st } : BodyOut FlatMap St Payload))
+    | "emit" =>
+      -- a stream producer. StreamableLambda (value in): handed a stream without chunks it fails like a
+      -- tag node; TransformableLambda (`xform`) reads the chunks itself. `empty`: the output stream is
+      -- closed without a chunk — in a value-mode call the framework cannot concatenate it (the node
+      -- fails after its lambda ran)
+      let xform := J.boolD b "xform" false
+      let empty := J.boolD b "empty" false
+      pure (fun (v : FlatMap) (st : St) (_ : Option Payload) =>
+        if !xform && isE v then ({ res := .fail missingKeyErr st } : BodyOut FlatMap St Payload)
+        else if empty then (if sm then { res := .done emptyV st } else { res := .fail missingKeyErr st })
+        else { res := .done (tagBody key v) st })
+    | "collect" =>
+      -- CollectableLambda: reads the chunks itself (none: `emptyV`)
+      pure (fun (v : FlatMap) (st : St) (_ : Option Payload) =>
+        ({ res := .done (tagBody key v) st } : BodyOut FlatMap St Payload))
     | "graph" => do
-      let sub ← parseGraph theCfg lv (d + 1) plain (← J.field b "g")
+      let sub ← parseGraph theCfg lv (d + 1) plain sm (← J.field b "g")
       pure (fun v st (x : Option Payload) =>
         let o := runI flatOps theCfg sub (lv (d + 1)) true false (match x with | some p => .inr p.cp | none => .inl v)
         match o.res with
@@ -133,9 +158,9 @@ partial def parseNode (theCfg : Cfg) (lv : Nat → ISched FlatMap St Payload) (d
     | op => throw s!"bad body op {op}" : JE (FlatMap → St → Option Payload → BodyOut FlatMap St Payload))
   pure (key, { key := key, pre := pre, body := body, post := post })
 
-partial def parseGraph (theCfg : Cfg) (lv : Nat → ISched FlatMap St Payload) (d : Nat) (plain : Bool) (j : Json) : JE (IRunner FlatMap St Payload) := do
+partial def parseGraph (theCfg : Cfg) (lv : Nat → ISched FlatMap St Payload) (d : Nat) (plain : Bool) (sm : Bool) (j : Json) : JE (IRunner FlatMap St Payload) := do
   let mode := J.strD j "mode" "pregel"
-  let nodes ← (← J.arr j "nodes").mapM (parseNode theCfg lv d plain)
+  let nodes ← (← J.arr j "nodes").mapM (parseNode theCfg lv d plain sm)
   let edges ← (J.arrD j "edges").mapM (fun e => do
     match e with
     | .arr #[.str a, .str b] => pure (a, b)
@@ -145,7 +170,11 @@ partial def parseGraph (theCfg : Cfg) (lv : Nat → ISched FlatMap St Payload) (
     let ends ← J.strList b "ends"
     let table ← (← J.arr b "table").mapM (fun row => do (← J.asArr row).mapM J.asStr)
     let failId := (b.getObjVal? "fail").toOption.bind (fun x => x.getNat?.toOption)
+    -- a stream condition reads the chunks itself (none: it picks on `emptyV`); a value condition
+    -- cannot be handed a stream without chunks (the generator never builds that)
+    let streamCond := J.boolD b "stream" false
     let cond : FlatMap → Except Err (List Key) := fun v =>
+      if isE v && !streamCond then .error missingKeyErr else
       match failId with
       | some id => .error { cls := .branchUser id }
       | none => .ok (pick table v)
@@ -237,7 +266,7 @@ partial def flatten (pfx : List Key) : List (Ev FlatMap St Payload) → List Fla
   | _ :: rest => flatten pfx rest
 
 /-- one call: result, per-path superstep sequences, leaf executions (sorted), store written -/
-def callJson (g : Json) (o : Out FlatMap St Payload) : Json :=
+def callJson (g : Json) (o : Out FlatMap St Payload) (notes : List String := []) : Json :=
   let fl := flatten [] o.evs
   let steps : List (String × List Json) := fl.foldl (fun acc ev =>
     match ev with
@@ -257,17 +286,26 @@ def callJson (g : Json) (o : Out FlatMap St Payload) : Json :=
     match ev with
     | .start p v =>
       let op := opAt g p
+      let nd := nodeAt g p
+      let xform := match nd with
+        | some n => (match n.getObjVal? "body" with | .ok b => J.boolD b "xform" false | .error _ => false)
+        | none => false
       if op == "tag" then
         -- a keyed lambda is recorded with what it receives; it does not run when its key is missing
-        (keyedInput ((nodeAt g p).bind inKeyOf) v).map (fun v' => pathStr p ++ " " ++ FlatMap.render v')
-      else if op == "fail" then some (pathStr p ++ " " ++ FlatMap.render v) else none
+        -- or when it is handed a stream without chunks
+        if isE v then none else
+        (keyedInput (nd.bind inKeyOf) v).map (fun v' => pathStr p ++ " " ++ FlatMap.render v')
+      else if op == "fail" then (if isE v then none else some (pathStr p ++ " " ++ FlatMap.render v))
+      else if op == "collect" || (op == "emit" && xform) then some (pathStr p ++ " " ++ FlatMap.render v)
+      else if op == "emit" then (if isE v then none else some (pathStr p ++ " " ++ FlatMap.render v))
+      else none
     | _ => none)
   let stored := o.evs.any (fun ev => match ev with | .storeSet => true | _ => false)
   Json.mkObj (resJson g o.res ++ [
     ("steps", Json.mkObj ((steps.toArray.qsort (fun a b => a.1 < b.1)).toList.map (fun p => (p.1, J.mkArr p.2)))),
     ("handed", J.mkArr handed),
     ("execs", J.mkStrs (sortStrs execs)),
-    ("stored", Json.bool stored)])
+    ("stored", Json.bool stored)] ++ (if notes.isEmpty then [] else [("notes", J.mkStrs notes)]))
 
 def scheds : List (ISched FlatMap St Payload) :=
   [ISched.id, fun l => l.reverse] ++
@@ -293,7 +331,35 @@ def comboSched (combo : List (ISched FlatMap St Payload)) : Nat → ISched FlatM
 
 def uniformSched (sc : ISched FlatMap St Payload) : Nat → ISched FlatMap St Payload := fun _ => sc
 
-/-- {"g": graph case, "input": "x", "maxCalls": n, "noID": bool, "altsFull": bool} →
+/-- the calling paradigm of call `i` (the list cycles; none given: Invoke) -/
+def parOf (ps : List String) (i : Nat) : String :=
+  if ps.isEmpty then "invoke" else ps.getD (i % ps.length) "invoke"
+
+/-- Stream / Collect / Transform run the graph on streams -/
+def isStreamPar (p : String) : Bool := p != "invoke" && p != ""
+
+/-- what the caller of paradigm `p` gets when the run's result is the stream without chunks:
+    Stream / Transform hand it on (rendered `<empty>=;`), Collect cannot concatenate it (the
+    framework's error, no node path) -/
+def finalize (p : String) (o : Out FlatMap St Payload) : Out FlatMap St Payload :=
+  match o.res with
+  | .done v => if isE v && p == "collect" then { o with res := .failed missingKeyErr } else o
+  | _ => o
+
+/-- annotations of an interrupted call (for the harness's distribution, not compared): the checkpoint
+    holds a stream without chunks as a pending input / as a channel content, at this or a nested level -/
+partial def cpNotes (sfx : String) (cp : Checkpoint FlatMap St Payload) : List String :=
+  (if cp.inputs.any (fun kv => isE kv.2) then ["chunkless-stream-in-checkpoint:pending-input" ++ sfx] else []) ++
+  (if cp.chans.any (fun kc => kc.2.values.any (fun kv => isE kv.2)) then ["chunkless-stream-in-checkpoint:channel" ++ sfx] else []) ++
+  cp.subs.flatMap (fun kx => cpNotes ":nested" kx.2.cp)
+
+def outNotes (o : Out FlatMap St Payload) : List String :=
+  match o.res with
+  | .interrupted cp _ => (cpNotes "" cp).eraseDups
+  | _ => []
+
+/-- {"g": graph case, "input": "x", "maxCalls": n, "noID": bool, "altsFull": bool,
+     "paradigms": [per call, cycling], "plainPar": paradigm of the reference run} →
     {"calls":[…], "plain": call, "alts":[final results reachable under other completion orders]} -/
 def handle (c : Json) : JE Json := do
   let g ← J.field c "g"
@@ -302,14 +368,21 @@ def handle (c : Json) : JE Json := do
   let noID := J.boolD c "noID" false
   let input : FlatMap := [("in", x)]
   let theCfg := cfgOf c
+  let pars : List String := (J.arrD c "paradigms").filterMap (fun x => x.getStr?.toOption)
+  let plainPar := J.strD c "plainPar" "invoke"
   let idLv := uniformSched (ISched.id : ISched FlatMap St Payload)
-  let hist : JE (List (Out FlatMap St Payload)) := do
-    let r ← parseGraph theCfg idLv 0 false g
-    if noID then pure [runI flatOps theCfg r ISched.id false false (.inl input)]
-    else pure (resumeUntilDone flatOps theCfg r ISched.id maxCalls input)
-  let h ← hist
-  let rp ← parseGraph theCfg idLv 0 true g
-  let plain := runI flatOps theCfg rp ISched.id false false (.inl input)
+  -- the same graph in value mode and in stream mode (they differ only in the natively streaming nodes)
+  let rV ← parseGraph theCfg idLv 0 false false g
+  let rS ← parseGraph theCfg idLv 0 false true g
+  let rOf : Nat → IRunner FlatMap St Payload := fun i => if isStreamPar (parOf pars i) then rS else rV
+  let h0 : List (Out FlatMap St Payload) :=
+    if noID then [runI flatOps theCfg (rOf 0) ISched.id false false (.inl input)]
+    else histLoop flatOps theCfg rOf ISched.id maxCalls 0 (.inl input)
+  let lastIdx := h0.length - 1
+  let lastPar := parOf pars lastIdx
+  let h := (List.range h0.length).zip h0 |>.map (fun io => finalize (parOf pars io.1) io.2)
+  let rp ← parseGraph theCfg idLv 0 true (isStreamPar plainPar) g
+  let plain := finalize plainPar (runI flatOps theCfg rp ISched.id false false (.inl input))
   let isFail := match h.getLast? with | some o => (match o.res with | .failed _ => true | _ => false) | none => false
   -- which failure a call reports depends on the order in which the tasks of the failing step complete
   -- (and, for restored tasks, on Go's map order) — at every nesting level independently: every result
@@ -329,18 +402,18 @@ def handle (c : Json) : JE Json := do
   let alts ← if isFail then (do
       let outs ← combos.mapM (fun combo => do
         let lv := comboSched combo
-        let r ← parseGraph theCfg lv 0 false g
-        pure (runI flatOps theCfg r (lv 0) false (!noID) lastInput))
+        let r ← parseGraph theCfg lv 0 false (isStreamPar lastPar) g
+        pure (finalize lastPar (runI flatOps theCfg r (lv 0) false (!noID) lastInput)))
       pure (distinct outs)) else pure []
   let plainAlts ← (match plain.res with
     | .failed _ => (do
       let ps ← combos.mapM (fun combo => do
         let lv := comboSched combo
-        let rp ← parseGraph theCfg lv 0 true g
-        pure (runI flatOps theCfg rp (lv 0) false false (.inl input)))
+        let rp ← parseGraph theCfg lv 0 true (isStreamPar plainPar) g
+        pure (finalize plainPar (runI flatOps theCfg rp (lv 0) false false (.inl input))))
       pure (distinct ps))
     | _ => pure [])
-  pure (Json.mkObj [("calls", J.mkArr (h.map (callJson g))), ("plain", callJson g plain),
+  pure (Json.mkObj [("calls", J.mkArr (h.map (fun o => callJson g o (outNotes o)))), ("plain", callJson g plain),
                     ("alts", J.mkArr alts), ("plainAlts", J.mkArr plainAlts)])
 
 end EinoV.Oracle.C05GraphCase
